@@ -238,10 +238,21 @@ def run(prop, tier, seed):
 # every representation called with ids that are NOT vertices (order, order+1, far-out ids, gaps of a non-contiguous
 # AdjacencyMap); the answer must be a panic or the neutral answer and the digraph unchanged.  That search runs in the `c13`
 # cargo profile (graaf compiled WITH debug assertions, so std's unsafe-precondition checks abort on an out-of-bounds
-# get_unchecked / ptr::add); a process killed by a signal is reported with the input that was running.  (2) The
+# get_unchecked / ptr::add); a process killed by a signal is reported with the input that was running.  The same search then
+# covers the LEAK half of C13 (replay/src/search/c_leak.rs): the searcher runs under a counting global allocator and, for
+# every operation of the unweighted representations (constructors, generators, conversions, complement / converse / union /
+# filter_vertices, iterator queries, Bfs / Dfs / Tarjan) on small and structured digraphs, checks that repeating the call
+# with the results dropped does not grow the heap (measured between quiescent points, confirmed by a second round).  (2) The
 # PRECONDITION of the unchecked accesses: every digraph produced by the safe API is well-formed (no arc to a non-vertex,
 # no self-loop, order consistent), which is what the searches of C01 / C14 / C16 establish on their inputs.
 STANDIN_ALIASES = {"C13": ["C13", "C01", "C14", "C16"]}
+STANDIN_KIND = {
+    "C13": "replay searcher (bounded, NOT proof), three parts: (a) every vertex-taking query of every representation with ids that are not vertices "
+           "(order, order+1, far-out ids, gaps of a non-contiguous AdjacencyMap) on all digraphs of order <= 3 and structured larger ones, graaf compiled "
+           "with debug assertions (std's unsafe-precondition checks abort; a searcher killed by a signal is reported): answer must be a panic or the neutral "
+           "answer, digraph unchanged; (b) leak half: every operation of the unweighted representations repeated under a counting global allocator must not "
+           "grow the heap; (c) well-formedness of every digraph produced by the safe API (the precondition of the unchecked accesses) via the C01 / C14 / C16 searches",
+}
 
 
 def search(prop, seed, failures, tier="quick"):
